@@ -116,8 +116,11 @@ def build():
     if cdir in _built:
         return _built[cdir]
     feats = features()
+    # the binary name is unique per repository copy: all builds share one target directory, where
+    # equally named binaries of different copies would overwrite each other
+    binname = "inproc" + common.repo_tag()
     toml = """[package]
-name = "inproc"
+name = "%s"
 version = "0.0.0"
 edition = "2021"
 
@@ -141,7 +144,7 @@ incremental = false
 overflow-checks = true
 debug-assertions = true
 panic = "unwind"
-""" % (", ".join('"%s"' % f for f in feats), "\n".join("%s = []" % f for f in feats))
+""" % (binname, ", ".join('"%s"' % f for f in feats), "\n".join("%s = []" % f for f in feats))
     common.write_if_changed(os.path.join(cdir, "Cargo.toml"), toml)
     common.write_if_changed(os.path.join(cdir, "src", "main.rs"), gen_root())
     lock = os.path.join(common.REPO, "Cargo.lock")
@@ -149,11 +152,11 @@ panic = "unwind"
         import shutil
         shutil.copy(lock, os.path.join(cdir, "Cargo.lock"))
     rc, diags, arts, err = common.cargo_json(cdir, ("build",))
-    if rc != 0 or "inproc" not in arts:
+    if rc != 0 or binname not in arts:
         msgs = "\n".join(common.diag_text(d) for d in diags if d.get("level") == "error")
         raise Inconclusive("in-process harness failed to build against %s:\n%s\n%s" % (common.REPO, msgs[-3000:], err[-1500:]))
-    _built[cdir] = arts["inproc"]
-    return arts["inproc"]
+    _built[cdir] = arts[binname]
+    return arts[binname]
 
 
 def hexs(s):
